@@ -35,8 +35,14 @@ def qe_desc(draw, wave_nm):
     kind = draw(st.sampled_from(["scalar", "vector", "spectrum", "spectrum"]))
     n = len(wave_nm)
     if kind == "scalar":
+        if draw(st.integers(0, 3)) == 0:
+            # a 0 / 1 efficiency (band mask element) held in a bool or narrow integer type
+            return {"kind": kind, "value": draw(st.sampled_from([0, 1, 1])), "dtype": draw(st.sampled_from(["bool", "uint8", "int8", "int16", "int64"]))}
         return {"kind": kind, "value": draw(gen.finite(0.0, 1.0))}
     if kind == "vector":
+        if draw(st.integers(0, 3)) == 0:
+            return {"kind": kind, "value": [draw(st.sampled_from([0, 1, 1])) for _ in range(n)],
+                    "dtype": draw(st.sampled_from(["bool", "uint8", "int8", "int16", "float32"]))}
         return {"kind": kind, "value": [draw(gen.finite(0.0, 1.0)) for _ in range(n)]}
     lo, hi = min(wave_nm) - draw(gen.finite(1.0, 80.0)), max(wave_nm) + draw(gen.finite(1.0, 80.0))
     m = draw(st.integers(2, 12))
@@ -65,9 +71,9 @@ def qe_desc(draw, wave_nm):
 
 def make_qe(d):
     if d["kind"] == "scalar":
-        return d["value"]
+        return np.dtype(d["dtype"]).type(d["value"]) if d.get("dtype") else d["value"]
     if d["kind"] == "vector":
-        return np.array(d["value"])
+        return np.array(d["value"], dtype=d.get("dtype"))
     from checks import common as cm
     s = Spectrum(d["w_nm"] * rs.factor("nm", d["unit"]), d["v"].copy(), waveunit=d["unit"])
     return cm.derive_obj(s, len(d["w_nm"]) + int(abs(float(d["v"][0])) * 1000))[0]
@@ -90,6 +96,12 @@ def charge_case(draw, tier):
     img = np.random.default_rng(k).uniform(0, 1000, size=(nw,) + shape) * draw(gen.scales())
     if draw(st.sampled_from([False, False, True])):
         img = np.round(img).astype(np.int64)           # integer photon counts
+        nar = draw(st.sampled_from([None, None, "uint8", "uint16", "int16", "int8"]))
+        if nar:
+            # photon cubes stored in a narrow type (8/16-bit camera frames): the same counts, whose sum over wavelength
+            # slices goes beyond the type's own range
+            top = {"uint8": 250, "uint16": 60000, "int16": 30000, "int8": 120}[nar]
+            img = (np.random.default_rng(k).integers(top // 2, top, size=(nw,) + shape)).astype(nar)
     return {"wave_nm": wave_nm, "img": img, "qe": draw(qe_desc(wave_nm)), "qe2": draw(qe_desc(wave_nm)),
             "wave_as_list": draw(st.booleans()),
             "waveunit": draw(st.sampled_from(UNITS)), "squeeze": nw == 1 and draw(st.booleans()),
